@@ -16,6 +16,7 @@ for d in seeded/*/; do
   echo "S $name $d/patch.diff $prop" >> $jobs
 done
 for w in refactors/wave*/; do
+  [ "${ONLY:-}" = S ] && break   # ONLY=S: seeded changes only (the refactorings are covered by crosswave.sh)
   for pd in $w/C*/R*/; do
     [ -f $pd/patch.diff ] || continue
     p=$(basename $(dirname $pd)); v=$(basename $pd)
